@@ -522,14 +522,53 @@ func catch(f func()) (p interface{}) {
 	return nil
 }
 
+// specEqualLists: every ordered pair of leaf-lists of <=5 elements over the
+// element values {1, 2} (63 lists): equal exactly when the same length and the
+// same element at every position.
+func specEqualLists() seqmc.Spec {
+	var lists [][]int64
+	for n := 0; n <= 5; n++ {
+		for m := 0; m < 1<<uint(n); m++ {
+			l := make([]int64, n)
+			for i := range l {
+				l[i] = 1 + int64(m>>uint(i)&1)
+			}
+			lists = append(lists, l)
+		}
+	}
+	mk := func(l []int64) *pb.TypedValue {
+		var es []*pb.TypedValue
+		for _, x := range l {
+			es = append(es, &pb.TypedValue{Value: &pb.TypedValue_IntVal{IntVal: x}})
+		}
+		return &pb.TypedValue{Value: &pb.TypedValue_LeaflistVal{LeaflistVal: &pb.ScalarArray{Element: es}}}
+	}
+	return seqmc.Spec{Name: fmt.Sprintf("value.Equal on all ordered pairs of the %d leaf-lists of <=5 elements over two element values", len(lists)), N: len(lists) * len(lists), Run: func(i int) (string, bool, []seqmc.Violation) {
+		a, b := lists[i/len(lists)], lists[i%len(lists)]
+		desc := fmt.Sprintf("Equal(leaf-list %v, leaf-list %v)", a, b)
+		want := fmt.Sprint(a) == fmt.Sprint(b)
+		var got bool
+		if p := catch(func() { got = value.Equal(mk(a), mk(b)) }); p != nil {
+			return desc, true, vio("equal-panic", "%s panics: %v", desc, p)
+		}
+		if got && !want {
+			return desc, true, vio("equal-unsound", "%s reports two different values as equal", desc)
+		}
+		if !got && want {
+			return desc, true, vio("equal-incomplete", "%s reports two identical leaf-lists as different", desc)
+		}
+		return desc, got, nil
+	}}
+}
+
 type harness struct{}
 
 func (harness) Property() string { return "C19" }
 func (harness) Specs(tier string) []seqmc.Spec {
 	if tier == "thorough" {
-		return []seqmc.Spec{specToStrings(3), specCompletePath(), specQuery(4), specScalars(), specEqual()}
+		return []seqmc.Spec{specToStrings(3), specCompletePath(), specQuery(4), specScalars(), specEqual(), specEqualLists()}
 	}
-	return []seqmc.Spec{specToStrings(2), specCompletePath(), specQuery(3), specScalars(), specEqual()}
+	return []seqmc.Spec{specToStrings(2), specCompletePath(), specQuery(3), specScalars(), specEqual(), specEqualLists()}
 }
 
 func main() { seqmc.Main(harness{}) }
